@@ -396,7 +396,7 @@ def run_runtime(c, invoke=False, want_keys=True, null_w=0.2, min_list=0, max_lis
             gen_stats.update(g.stats)
             lst.append({"tag": i, "variables": variables, "response": resp, "root": g.node_link})
         cases[key] = lst
-        job_eps[key] = {"cases": lst}
+        job_eps[key] = {"cases": lst, "variableNames": op_var_names(opdef)}
     poss = {}
     for pk, info in pointer_decls(c.root).items():
         poss[pk] = {"list": info["list"], "possible": sorted(schema.possible_types(info["target"])) or None}
@@ -576,6 +576,14 @@ def analyze_c11_dynamic(c, spec):
             for mm in nm["mismatches"]:
                 wit = {"case": c.describe(), "replay": c.replay(), "entrypoint": key, "operation": rt["ops"][key]["text"][:2500],
                        "mismatch": mm, "variables": given["variables"]}
+                fn_ = lambda ks: sorted(k_.split("____")[0] for k_ in ks)
+                if mm["notLooked"] and mm["notRequested"] and fn_(mm["notLooked"]) == fn_(mm["notRequested"]):
+                    # same fields on both sides: operation and runtime disagree about the KEY of a field (C12's subject)
+                    stats["objects_with_key_disagreement(see C12)"] += 1
+                    out["violations"].append({"rule": "key-disagreement", "signature": "C11dyn/looks-up-a-field-under-another-key-than-the-operation-requests(see C12)",
+                                              "what": f"{c.cid} {key}: at {mm['path'] or '<root>'} the response has {mm['notLooked'][:2]}, normalizeData looked up {mm['notRequested'][:2]}",
+                                              "witness": wit})
+                    continue
                 if mm["notLooked"]:
                     stats["returned_keys_never_looked_up"] += len(mm["notLooked"])
                     kind = "with-arguments" if any("____" in x for x in mm["notLooked"]) else "plain"
@@ -615,12 +623,42 @@ def _str_detail(args_canon):
             for _k, x in v[1]:
                 walk(x)
         elif v[0] == "lit":
-            det.add("literal:" + ("int" if re.match(r"^-?\d+$", v[1]) else v[1]))
+            if re.match(r"^-?\d+$", v[1]):
+                det.add("literal:int-outside-js-safe-range" if abs(int(v[1])) > 2 ** 53 - 1 else "literal:int")
+            else:
+                det.add("literal:" + v[1])
         else:
             det.add(v[0])
     for _n, v in args_canon:
         walk(v)
     return "+".join(sorted(det))
+
+
+def _has_escape(v):
+    k = v.get("kind")
+    if k == "StringValue":
+        return "\\" in (v.get("raw") or "")
+    if k == "ObjectValue":
+        return any(_has_escape(f["value"]) for f in v["fields"])
+    if k == "ListValue":
+        return any(_has_escape(x) for x in v["values"])
+    return False
+
+
+def key_cause(canon, want, got, escapes=None):
+    """Cause of a key disagreement: the argument whose chunk differs (keys are name____arg___chunk____arg___chunk...)."""
+    a = str(want).split("____")[1:]
+    b = (got[0] if isinstance(got, list) and len(got) == 1 and isinstance(got[0], str) else "").split("____")[1:]
+    sub = canon
+    if len(a) == len(b) == len(canon):
+        diff = [i for i in range(len(a)) if a[i] != b[i]]
+        if diff:
+            sub = [canon[i] for i in diff]
+            if escapes is not None:
+                escapes = [escapes[i] for i in diff]
+    if escapes is not None and any(escapes):
+        return "string-escape-sequence"
+    return _str_detail(sub)
 
 
 def compare_keys(c, where, op_sels, ast_nodes, out, stats, text):
@@ -651,7 +689,7 @@ def compare_keys(c, where, op_sels, ast_nodes, out, stats, text):
         got = n.get("keys")
         if got != [want]:
             stats["keys_differ"] += 1
-            out["violations"].append({"rule": "runtime-key", "signature": "C12/runtime-key-differs-from-operation-alias/" + _str_detail(canon),
+            out["violations"].append({"rule": "runtime-key", "signature": "C12/runtime-key-differs-from-operation-alias/" + key_cause(canon, want, got, [_has_escape(a_["value"]) for a_ in s["arguments"]]),
                                       "what": f"{c.cid} {where}: for {s['name']}({gqlref.print_value({'kind': 'ObjectValue', 'fields': [{'name': a['name'], 'value': a['value']} for a in s['arguments']]})}) "
                                               f"the operation uses key {want!r}, the runtime looks up {got!r}",
                                       "witness": {"case": c.describe(), "replay": c.replay(), "where": where, "field": s["name"],
@@ -701,7 +739,8 @@ def ast_value(v):
     if k == "var":
         return {"kind": "Variable", "name": v[1]}
     if k == "str":
-        return {"kind": "String", "value": v[1]}
+        # ... and verbatim into a JavaScript string literal
+        return {"kind": "String", "value": json.loads('"' + v[1].replace("\t", "\\t") + '"') if "\\" in v[1] else v[1]}
     if k == "int":
         return {"kind": "Literal", "value": v[1]}
     if k == "bool":
@@ -720,7 +759,8 @@ def canon_isogen(v):
     if k == "var":
         return ["var", v[1]]
     if k == "str":
-        return ["str", v[1]]
+        # the compiler writes the iso string literal verbatim into the GraphQL text: the value is what GraphQL makes of it
+        return ["str", gqlref._cook_string(v[1]) if "\\" in v[1] else v[1]]
     if k == "int":
         return ["lit", json.dumps(v[1])]
     if k == "bool":
@@ -730,6 +770,14 @@ def canon_isogen(v):
     if k == "enum":
         return ["enum", v[1]]
     return ["obj", [[a, canon_isogen(b)] for a, b in v[1]]]
+
+
+def _iso_has_escape(v):
+    if v[0] == "str":
+        return "\\" in v[1]
+    if v[0] == "obj":
+        return any(_iso_has_escape(b) for _a, b in v[1])
+    return False
 
 
 def analyze_c12_micro(c, spec):
@@ -788,7 +836,8 @@ def analyze_c12_micro(c, spec):
         if len(aliases) != 1:
             stats["argument_lists_with_several_aliases"] += 1
         if got is None or [a for a in aliases] != got:
-            out["violations"].append({"rule": "runtime-key", "signature": "C12/runtime-key-differs-from-operation-alias/" + _str_detail(canon),
+            cause = key_cause(canon, sorted(aliases)[0], got, [_iso_has_escape(v) for _a, v in lst])
+            out["violations"].append({"rule": "runtime-key", "signature": "C12/runtime-key-differs-from-operation-alias/" + cause,
                                       "what": f"{c.cid}: probe{json.dumps(canon)[:160]}: compiler alias {sorted(aliases)}, runtime key {got}",
                                       "witness": {"case": c.describe(), "replay": c.replay(), "arguments": canon, "compiler_alias": sorted(aliases),
                                                   "runtime": k}})
@@ -951,6 +1000,12 @@ def analyze_c25(c, spec):
         opdef = rt["ops"][key]["opdef"]
         found = []
         static_walk(e, found, stats, entry_varmap(opdef))
+        entry_base = [opdef["selectionSet"]]
+        if entry_parent != schema.root(opdef["operation"]):
+            # entrypoint of a field on a non-root type: its reader is rooted at node(id: $id) { ... on Parent { HERE } }
+            un0, _why = unwrap_refetch(opdef, schema, "entry", None)
+            if un0 is not None:
+                entry_base = un0[0]
         nested = e["nestedRefetchQueries"]
         parsed = {}
         for i, n in enumerate(nested):
@@ -1012,7 +1067,7 @@ def analyze_c25(c, spec):
             # inner selection set == the subtree of the entrypoint's operation (or of the enclosing pointer's refetch query) at this position
             base_sets = None
             if r.base[0] == "entry":
-                base_sets = [opdef["selectionSet"]]
+                base_sets = entry_base
             else:
                 pr_ptr = parsed.get(r.base[1].entry_index) if r.base[1].entry_index is not None else None
                 if pr_ptr is not None:
@@ -1024,6 +1079,10 @@ def analyze_c25(c, spec):
                 req = reader_requirements(r.node.get("selections"), r.varmap, 0, stats)
                 have = canon_tree([x for ss in inner_sets for x in ss])
                 miss = tree_missing(req, have)
+                # several selections of the pointer at the same normalized position share one refetch query
+                for r2 in found:
+                    if r2 is not r and r2.kind == "pointer" and not r2.oor and r2.entry_index == r.entry_index:
+                        req = merge_trees(req, reader_requirements(r2.node.get("selections"), r2.varmap, 0, stats))
                 if miss:
                     viol("pointer-inner-selection", "pointer-refetch-query-lacks-field-read-below-the-pointer",
                          f"{where}: refetch query {r.entry_index} for pointer {r.name} lacks {json.dumps(miss)[:200]}",
@@ -1130,11 +1189,11 @@ def analyze_c25(c, spec):
                             if vn not in sent or sent[vn] is None:
                                 if vn in given["variables"] and given["variables"][vn] is not None:
                                     stats["dynamic_variables_not_forwarded"] += 1
-                                    viol("variables", f"refetch-query-variable-not-sent/{inv['kind']}",
+                                    viol("variables", "refetch-query-variables-are-filled-from-the-nested-reader's-variables",
                                          f"{where}: refetch query declares ${vn} (entrypoint value {given['variables'][vn]!r}) but the runtime sends {json.dumps(sent)[:160]}", wit)
                             elif inv["kind"] != "imperative" or inv["name"] == "__refetch" or vn in given["variables"]:
                                 if vn in given["variables"] and sent[vn] != given["variables"][vn] and not str(sent[vn]).startswith("arg:"):
-                                    viol("variables", f"refetch-query-variable-has-another-value/{inv['kind']}",
+                                    viol("variables", "refetch-query-variables-are-filled-from-the-nested-reader's-variables",
                                          f"{where}: ${vn} sent as {sent[vn]!r}, entrypoint value {given['variables'][vn]!r}", wit)
                 else:
                     tgt = inv.get("targetEntrypoint")
@@ -1146,7 +1205,8 @@ def analyze_c25(c, spec):
                     if got is None or got != want_key or (got.split("/")[-1] != inv["name"]):
                         viol("loadable-operation", "loadable-field-fetches-another-entrypoint", f"{where}: @loadable {inv['name']} sent the operation of {got}, expected {want_key}", wit)
                         continue
-                    if rec_id is not None:
+                    reads_id = st is not None and any(n_.get("kind") == "Scalar" and n_.get("fieldName") == "id" for n_ in (st.node.get("refetchReaderAst") or []))
+                    if rec_id is not None and reads_id:
                         stats["dynamic_id_variables_checked"] += 1
                         if sent.get("id") != rec_id:
                             viol("id-variable", "refetch-variables-do-not-carry-the-record-id/loadable", f"{where}: record {rec_id!r}, variables sent {json.dumps(sent)[:200]}", wit)
